@@ -301,11 +301,19 @@ Ltac step_inv H :=
   end;
   repeat (first [break_hyp H | break_top H]; try discriminate H);
   try (injection H as H; try subst);
-  repeat match goal with
+  try match goal with
   | Hk : e_k _ = KLbNew _ ?x |- _ => is_var x; let ts := fresh "ts" in rename x into ts
   | Hk : e_k _ = KSnapCollect ?x |- _ => is_var x; let ss := fresh "ss" in rename x into ss
   end;
-  bool_hyps.
+  bool_hyps;
+  try match goal with
+  | Hq : nget (reqs ?s) ?r = Some ?q |- _ =>
+    assert (phase_of s r = Some (r_phase q)) by (unfold phase_of; rewrite Hq; reflexivity);
+    assert (cancelled s r = r_cancelled q) by (unfold cancelled; rewrite Hq; reflexivity)
+  | Hq : nget (reqs ?s) ?r = None |- _ =>
+    assert (phase_of s r = None) by (unfold phase_of; rewrite Hq; reflexivity);
+    assert (cancelled s r = false) by (unfold cancelled; rewrite Hq; reflexivity)
+  end.
 
 Ltac proj :=
   cbn [targets lbs svcs svc_names tgt_names installed reqs clock tick
@@ -315,4 +323,182 @@ Lemma step_clock : forall s e s', step s e = Some s' -> (clock s <= clock s')%N 
 Proof.
   intros s e s' H. step_inv H.
   all: proj; rewrite ?clock_taint; proj; lia.
+Qed.
+
+(** * Projections of the updated states (rewrite base [st]) *)
+
+Section Proj.
+Variables (st : state) (r : nat) (p : rphase) (lb : nat) (t : nat) (x : tgt) (ts' : tstate)
+          (ds : list (nat * drain)) (tm : N).
+Variables (xt : list (nat * tgt)) (xl : list (nat * lbr)) (xs : list (nat * svc)) (xi : list nat).
+
+Lemma targets_set_phase : targets (set_phase st r p) = targets st. Proof. reflexivity. Qed.
+Lemma lbs_set_phase : lbs (set_phase st r p) = lbs st. Proof. reflexivity. Qed.
+Lemma svcs_set_phase : svcs (set_phase st r p) = svcs st. Proof. reflexivity. Qed.
+Lemma installed_set_phase : installed (set_phase st r p) = installed st. Proof. reflexivity. Qed.
+Lemma tgt_names_set_phase : tgt_names (set_phase st r p) = tgt_names st. Proof. reflexivity. Qed.
+Lemma clock_set_phase : clock (set_phase st r p) = clock st. Proof. reflexivity. Qed.
+
+Lemma phase_of_tick : forall r', phase_of (tick st tm) r' = phase_of st r'. Proof. reflexivity. Qed.
+Lemma phase_of_upd_targets : forall r', phase_of (upd_targets st xt) r' = phase_of st r'. Proof. reflexivity. Qed.
+Lemma phase_of_upd_lbs : forall r', phase_of (upd_lbs st xl) r' = phase_of st r'. Proof. reflexivity. Qed.
+Lemma phase_of_upd_svcs : forall r', phase_of (upd_svcs st xs) r' = phase_of st r'. Proof. reflexivity. Qed.
+Lemma phase_of_upd_installed : forall r', phase_of (upd_installed st xi) r' = phase_of st r'. Proof. reflexivity. Qed.
+Lemma phase_of_set_tstate : forall r', phase_of (set_tstate st t x ts') r' = phase_of st r'. Proof. reflexivity. Qed.
+Lemma phase_of_set_drains : forall r', phase_of (set_drains st t x ds) r' = phase_of st r'. Proof. reflexivity. Qed.
+
+Lemma cancelled_tick : forall r', cancelled (tick st tm) r' = cancelled st r'. Proof. reflexivity. Qed.
+Lemma cancelled_upd_targets : forall r', cancelled (upd_targets st xt) r' = cancelled st r'. Proof. reflexivity. Qed.
+Lemma cancelled_upd_lbs : forall r', cancelled (upd_lbs st xl) r' = cancelled st r'. Proof. reflexivity. Qed.
+Lemma cancelled_upd_svcs : forall r', cancelled (upd_svcs st xs) r' = cancelled st r'. Proof. reflexivity. Qed.
+Lemma cancelled_upd_installed : forall r', cancelled (upd_installed st xi) r' = cancelled st r'. Proof. reflexivity. Qed.
+Lemma cancelled_set_tstate : forall r', cancelled (set_tstate st t x ts') r' = cancelled st r'. Proof. reflexivity. Qed.
+Lemma cancelled_set_drains : forall r', cancelled (set_drains st t x ds) r' = cancelled st r'. Proof. reflexivity. Qed.
+End Proj.
+
+Lemma phase_of_arrive : forall st st' r c r',
+  phase_of (upd_reqs st (nset (reqs st') r (mkR PArrived c))) r' = if Nat.eqb r' r then Some PArrived else phase_of st' r'.
+Proof.
+  intros. unfold phase_of, upd_reqs. cbn [reqs]. rewrite nget_nset. destruct (Nat.eqb r' r); reflexivity.
+Qed.
+
+Lemma cancelled_arrive : forall st st' r p r',
+  nget (reqs st') r = None ->
+  cancelled (upd_reqs st (nset (reqs st') r (mkR p false))) r' = cancelled st' r'.
+Proof.
+  intros st st' r p r' Hn. unfold cancelled, upd_reqs. cbn [reqs]. rewrite nget_nset.
+  destruct (Nat.eqb_spec r' r) as [->|Hne]; auto. now rewrite Hn.
+Qed.
+
+(** "cancel any remaining requests" *)
+Definition mark_cancelled (still : list nat) (rq : list (nat * req)) : list (nat * req) :=
+  fold_left (fun acc r => match nget acc r with
+                          | Some q => nset acc r (mkR (r_phase q) true)
+                          | None => acc end) still rq.
+
+Lemma mark_get : forall still rq r,
+  nget (mark_cancelled still rq) r =
+  match nget rq r with
+  | Some q => Some (mkR (r_phase q) (r_cancelled q || nmem r still))
+  | None => None
+  end.
+Proof.
+  unfold mark_cancelled. induction still as [|r0 still IH]; intros rq r; cbn [fold_left].
+  - destruct (nget rq r) as [[p c]|]; cbn; auto. now rewrite orb_false_r.
+  - rewrite IH. rewrite nmem_cons. destruct (nget rq r0) as [q0|] eqn:E0.
+    + rewrite nget_nset. destruct (Nat.eqb_spec r r0) as [->|Hne].
+      * rewrite E0. cbn. f_equal. f_equal. now rewrite orb_true_r.
+      * cbn. reflexivity.
+    + destruct (Nat.eqb_spec r r0) as [->|Hne].
+      * rewrite E0. reflexivity.
+      * reflexivity.
+Qed.
+
+Lemma phase_of_mark : forall st st' still r,
+  phase_of (upd_reqs st (mark_cancelled still (reqs st'))) r = phase_of st' r.
+Proof.
+  intros. unfold phase_of, upd_reqs. cbn [reqs]. rewrite mark_get. destruct (nget (reqs st') r); reflexivity.
+Qed.
+
+Lemma cancelled_mark : forall st st' still r,
+  cancelled (upd_reqs st (mark_cancelled still (reqs st'))) r =
+  cancelled st' r || (nmem r still && match nget (reqs st') r with Some _ => true | None => false end).
+Proof.
+  intros. unfold cancelled, upd_reqs. cbn [reqs]. rewrite mark_get.
+  destruct (nget (reqs st') r); cbn; [now rewrite andb_true_r | now rewrite andb_false_r].
+Qed.
+
+Global Hint Rewrite targets_set_phase lbs_set_phase svcs_set_phase installed_set_phase tgt_names_set_phase clock_set_phase
+  targets_taint reqs_taint svcs_taint installed_taint tgt_names_taint clock_taint
+  phase_of_tick phase_of_upd_targets phase_of_upd_lbs phase_of_upd_svcs phase_of_upd_installed
+  phase_of_set_tstate phase_of_set_drains phase_of_taint phase_of_set_phase phase_of_arrive phase_of_mark
+  cancelled_tick cancelled_upd_targets cancelled_upd_lbs cancelled_upd_svcs cancelled_upd_installed
+  cancelled_set_tstate cancelled_set_drains cancelled_taint cancelled_set_phase cancelled_mark : st.
+
+Ltac fold_mark :=
+  repeat match goal with
+  | |- context [fold_left (fun acc r => match nget acc r with
+                                        | Some q => nset acc r (mkR (r_phase q) true)
+                                        | None => acc end) ?still ?rq] =>
+    change (fold_left (fun acc r => match nget acc r with
+                                    | Some q => nset acc r (mkR (r_phase q) true)
+                                    | None => acc end) still rq) with (mark_cancelled still rq)
+  end.
+
+Ltac fold_add_new :=
+  repeat match goal with
+  | |- context [fold_left (fun acc t => nset acc t (mkT ?lb TAdding [] [] false)) ?ts ?tg] =>
+    change (fold_left (fun acc t => nset acc t (mkT lb TAdding [] [] false)) ts tg) with (add_new lb ts tg)
+  end.
+
+(** after [step_inv]: push projections through the explicit new state *)
+Ltac norm := fold_mark; fold_add_new; proj; autorewrite with st in *; proj.
+
+Ltac heap_cases :=
+  repeat match goal with
+  | H : context [nget (nset _ ?k _) ?k] |- _ => rewrite nget_nset_same in H
+  | |- context [nget (nset _ ?k _) ?k] => rewrite nget_nset_same
+  | H : context [nget (nset _ ?k _) ?k'] |- _ =>
+    rewrite nget_nset in H; destruct (Nat.eqb_spec k' k); [subst|]
+  | |- context [nget (nset _ ?k _) ?k'] =>
+    rewrite nget_nset; destruct (Nat.eqb_spec k' k); [subst|]
+  end.
+
+Ltac eqb_cases :=
+  repeat match goal with
+  | H : context [Nat.eqb ?a ?a] |- _ => rewrite Nat.eqb_refl in H
+  | |- context [Nat.eqb ?a ?a] => rewrite Nat.eqb_refl
+  | H : context [Nat.eqb ?a ?b] |- _ => destruct (Nat.eqb_spec a b); [subst|]
+  | |- context [Nat.eqb ?a ?b] => destruct (Nat.eqb_spec a b); [subst|]
+  end.
+
+Ltac inj_some :=
+  repeat match goal with
+  | H : Some _ = Some _ |- _ => injection H as H; try subst
+  | H : Some _ = None |- _ => discriminate H
+  | H : None = Some _ |- _ => discriminate H
+  end.
+
+(** * Request phases only move forward *)
+
+Definition rank (p : rphase) : nat :=
+  match p with
+  | PArrived => 0 | PRouted _ => 1 | PGate _ _ => 2 | PPicked _ _ => 3 | PLbClaimed _ _ => 4
+  | PRefused _ => 5 | PClaimed _ => 5 | PAtTarget _ => 6 | PReplied _ _ => 7 | PFailed _ _ => 7
+  | PEnded _ _ => 8 | PDone => 9
+  end.
+
+(** the request has been claimed on a target *)
+Definition past_claim (p : rphase) : bool :=
+  match p with
+  | PClaimed _ | PAtTarget _ | PReplied _ _ | PFailed _ _ | PEnded _ _ => true
+  | _ => false
+  end.
+
+(** the target a request is in flight on *)
+Definition on_target (p : rphase) : option nat :=
+  match p with
+  | PClaimed t | PAtTarget t | PReplied t _ | PFailed t _ => Some t
+  | _ => None
+  end.
+
+Lemma outcome_on_target : forall p t st, outcome_status p = Some (t, st) -> on_target p = Some t.
+Proof.
+  intros p t st H. destruct p; cbn in H; try discriminate.
+  - inversion H; reflexivity.
+  - destruct why as [|[q|q|]]; inversion H; reflexivity.
+Qed.
+
+Lemma outcome_rank : forall p x, outcome_status p = Some x -> rank p = 7.
+Proof. intros p x H. destruct p; cbn in H; try discriminate; reflexivity. Qed.
+
+Lemma step_phase : forall s e s' r p,
+  step s e = Some s' -> phase_of s r = Some p ->
+  exists p', phase_of s' r = Some p' /\ (p' = p \/ rank p < rank p').
+Proof.
+  intros s e s' r p H Hp. step_inv H; norm; eqb_cases; eauto.
+  all: rewrite Hp in *; inj_some; try discriminate;
+       try match goal with Ho : outcome_status _ = Some _ |- _ => apply outcome_rank in Ho end;
+       try match goal with Hq : r_phase _ = _ |- _ => rewrite Hq in * end;
+       eexists; (split; [reflexivity|right; cbn; lia]).
 Qed.
